@@ -104,7 +104,7 @@ def run_filler_check(ctx, PID, impl_oracle, proof_target, select=False):
     # cases
     cases = gen_filler.corpus() + [gen_filler.gen_case(ctx.rng) for _ in range(ctx.scale(250, 3000))]
     res = []
-    fmts = ["fb", "tfrec"] if ctx.quick else ["fb", "npz", "tfrec"]
+    fmts = ["fb", "npz", "tfrec"]
     per_fmt = {}
     for fmt in fmts:
         sub = cases if fmt == "fb" else cases[:(40 if ctx.quick else 400)]
@@ -117,6 +117,8 @@ def run_filler_check(ctx, PID, impl_oracle, proof_target, select=False):
     per_fmt["fb+falsy"] = (sub2, common.run_impl("filler_run.py", {"cases": sub2, "format": "fb+falsy", "select": select}, timeout=3000)["results"])
     # ... and with an equal dict whose keys come in the opposite order on every other write (no change of the value, so no roll-over)
     per_fmt["fb+reorder"] = (sub2, common.run_impl("filler_run.py", {"cases": sub2, "format": "fb+reorder", "select": select}, timeout=3000)["results"])
+    # ... and with a key set that depends on the value (a label that keeps entries of the metadata of an earlier, rejected write is wrong)
+    per_fmt["fb+keys"] = (sub, common.run_impl("filler_run.py", {"cases": sub, "format": "fb+keys", "select": select}, timeout=3000)["results"])
     # 1. property oracle on the implementation
     found = 0
     for fmt, (sub, rs) in per_fmt.items():
